@@ -880,7 +880,9 @@ def run(ck):
                      "dir-writeable-child-opened", "dir-format:sdmf", "dir-format:mdmf",
                      "dir-path:create_dirnode+set_node", "dir-path:set_uri", "dir-path:set_children", "dir-path:set_nodes",
                      "dir-path:create_dirnode(initial_children)", "dir-path:create_subdirectory(initial_children)",
-                     "dir-path:repack-after-initial_children")
+                     "dir-path:repack-after-initial_children", "dir-path:clone:create_dirnode(A.list())",
+                     "dir-path:clone:create_subdirectory(A.list())", "dir-path:clone:set_nodes(A.list())",
+                     "dir-path:clone:set_children(A.list()-derived)", "dir-path:clone:create_immutable_dirnode(A.list())")
     ck.exhaustive = False
     ck.assumptions.append("tags that no prose specification spells out are pinned from the hashutil.py tag table of the pinned tree")
 
